@@ -8,8 +8,8 @@ use pkgsrc::plist::Plist;
 use serde_json::{json, Value};
 use std::os::unix::ffi::OsStrExt;
 
-const S1: [&[u8]; 24] = [
-    b"f1", b"f2", b"+M", b"@ignore", b"@cwd /a", b"@cwd /b/", b"@cwd \xe9", b"@exec e %D", b"@unexec u", b"@mode",
+const S1: [&[u8]; 26] = [
+    b"f1", b"f2", b"+M", b"@ignore", b"@cwd /a", b"@cwd /b/", b"@cwd \xe9", b"@cwd /c\xe9/", b"@cwd rel", b"@exec e %D", b"@unexec u", b"@mode",
     b"@mode 0644", b"@owner o", b"@group g", b"@pkgdir d1", b"@dirrm d2", b"@comment c", b"@name n-1", b"@display msg",
     b"@pkgdep p>=1", b"@blddep b-[0-9]*", b"@pkgcfl x-*", b"@option preserve", b"@name n-2", b"@display other",
 ];
@@ -116,7 +116,7 @@ fn main() {
         run.finish_replay(replay(doc), replay(doc));
     }
     run.rule(
-        "packing lists generated from entry-kind alphabets and parsed by the real parser: S1 = 24 \
+        "packing lists generated from entry-kind alphabets and parsed by the real parser: S1 = 26 \
          kinds (files, @ignore, three @cwd shapes incl. trailing '/' and non-UTF-8, every other \
          command kind, two @name and two @display), all sequences of <= N1; S2 = 7 kinds (f1 f2 \
          @ignore @cwd /a @cwd /b/ @exec @comment), all sequences of <= N2 (long ignore/file/cwd \
@@ -127,7 +127,7 @@ fn main() {
     run.assume("reference fold: mc/core/src/model/plist.rs views(); entries read through the verif hook to identify install/uninstall references by address");
 
     let n1 = run.pick(4, 5);
-    run.bound(format!("S1: all {} sequences of <= {} entries over 24 kinds", seqs::count(S1.len(), n1), n1));
+    run.bound(format!("S1: all {} sequences of <= {} entries over 26 kinds", seqs::count(S1.len(), n1), n1));
     seqs::par_seqs(&run, "C15 S1", S1.len(), n1, 2, |_| false, |s, t| {
         let mut text = vec![];
         for i in s {
